@@ -4,7 +4,9 @@ import (
 	"math"
 	"math/rand"
 	"reflect"
+	"strings"
 	"sync"
+	"time"
 )
 
 // Emb and DeepEmb are EMBEDDED in Host and Inner: their fields are promoted (H.EI, H.In.DX, H.Pn.DX are
@@ -17,6 +19,13 @@ type Emb struct {
 }
 
 type DeepEmb struct{ DX int32 }
+
+// Named types over the DSL's own kinds: fields of these types are read, compared, computed with and
+// assigned like their kind.
+type Level int64
+type Name string
+type Ratio float64
+type Flag bool
 
 // Inner is reached through two-level paths H.In.X (struct value) and H.Pn.X (struct pointer).
 type Inner struct {
@@ -59,6 +68,11 @@ type Host struct {
 	SL  []int32
 	AR  [4]uint8
 	Emb
+	Lv  Level
+	Dur time.Duration
+	Nm  Name
+	Rt  Ratio
+	Fl  Flag
 	IS  []Inner // slice of structs: an element can be put into a local and its fields / methods used
 	SL2 []int32 // a second slice of SL's type: `H.SL = H.SL2` replaces the field's value as a whole
 	AW  [3]int64 // array field whose elements rules store into (locals bound to the whole array keep its value)
@@ -210,6 +224,7 @@ func NewFixture(seed int64) *Fixture {
 			AR:  [4]uint8{uint8(pickU(r, 8)), 1, 2, uint8(pickU(r, 8))},
 			AW:  [3]int64{pickI(r, 16), 7, pickI(r, 32)},
 			SL2: []int32{int32(pickI(r, 16)), 12, 13, int32(pickI(r, 32))},
+			Lv:  Level(pickI(r, 64)), Dur: time.Duration(pickI(r, 32)), Nm: Name(StrPool[r.Intn(len(StrPool))]), Rt: Ratio(F64Pool[r.Intn(len(F64Pool))]), Fl: Flag(r.Intn(2) == 0),
 			IS:  []Inner{{X: pickI(r, 32), Y: 3, S: "is0"}, {X: pickI(r, 64), Y: uint16(pickU(r, 16)), S: StrPool[r.Intn(len(StrPool))], B: true}},
 			Emb: Emb{EI: pickI(r, 64), EU: uint16(pickU(r, 16)), EF: F64Pool[r.Intn(len(F64Pool))], ES: StrPool[r.Intn(len(StrPool))]},
 			rec: rec,
@@ -276,12 +291,35 @@ func (f *Fixture) Table() map[string]interface{} {
 		"ix1": int64(1),
 		// float64 values no literal can spell
 		// zero-length containers: a forRange over them runs its body not once
-		"VE": []int64{}, "ME": map[string]int64{},
+		"VE": []int64{}, "ME": map[string]int64{}, "MNil": map[string]int64(nil),
+		// unsigned values at the edge of the signed range (there are no unsigned literals)
+		"UMaxIm1": uint64(math.MaxInt64 - 1), "UMaxI": uint64(math.MaxInt64), "UMaxI1": uint64(math.MaxInt64) + 1, "UMax": uint64(math.MaxUint64), "UZ": uint64(0), "U32Max": uint32(math.MaxUint32),
 		"NNaN": math.NaN(), "NPInf": math.Inf(1), "NNInf": math.Inf(-1),
 		"pass": func(v interface{}) interface{} { return v },
 		// several results: the rule gets the first one
 		"pr2": func(id int64, v int64) (int64, string, error) { rec.add(id, v); return v + 1, "second", nil },
 		"pr0": func(id int64) { rec.add(id) },
+		// variadic callees: fixed parameters of other widths than the DSL's own, a typed tail
+		"tvar": func(id int64, base int, rest ...int64) int64 {
+			s := int64(base)
+			for _, x := range rest {
+				s += x
+			}
+			rec.add(id, base, int64(len(rest)), s)
+			return s
+		},
+		"tvs": func(id int64, lv uint8, parts ...string) int64 {
+			rec.add(id, lv, int64(len(parts)), strings.Join(parts, "|"))
+			return int64(lv) + int64(len(parts))
+		},
+		"tvf": func(id int64, f float32, more ...float64) float64 {
+			s := float64(f)
+			for _, x := range more {
+				s += x
+			}
+			rec.add(id, f, int64(len(more)), s)
+			return s
+		},
 	}
 	return t
 }
